@@ -17,7 +17,7 @@ git -C /repo worktree add --detach "$S/repo" HEAD >/dev/null 2>&1 || exit 2
 cp -r "$V/harness" "$S/harness"; rm -rf "$S/harness/target"
 sed -i "s#/repo/#$S/repo/#g" "$S/harness/Cargo.toml"
 cp /repo/Cargo.lock "$S/harness/Cargo.lock"; cp /repo/Cargo.lock "$S/repo/Cargo.lock" 2>/dev/null
-cp -r "$V/coq" "$S/coq"
+cp -a "$V/coq" "$S/coq"
 [ -f "$S/coq/Makefile" ] || ( cd "$S/coq" && coq_makefile -f _CoqProject -o Makefile >/dev/null 2>&1 )
 mkdir -p "$S/build" "$S/evidence" "$S/replay"
 # reuse the warmed dependency build where possible: copy is too big, so build cold (about 1 min)
